@@ -15,5 +15,5 @@ CONSTANTS
   Dev = {}
   WithHist = FALSE
 VIEW View
-INVARIANTS TypeOK ReplyShape PluginContract ReplyOptIffClientOpt DoMirrored OptNeverDuplicatedOrAltered
+INVARIANTS TypeOK ReplyShape PluginContract CacheEntrySound ReplyOptIffClientOpt DoMirrored OptNeverDuplicatedOrAltered
 CHECK_DEADLOCK FALSE
